@@ -78,10 +78,12 @@ func (e *Engine) verifyFunction(name string, spec *FuncSpec) (fc *FnCtx, err err
 	for _, g := range spec.Ghosts {
 		topEnv.bind(g.Name, fr.ghostRes[ghostKey(g)], nil)
 	}
+	fc.reqStart = len(fc.assertions)
 	for _, rq := range spec.Requires {
 		t := fc.evalClauseEnv(st, st, rq, topEnv)
 		fc.assume(st, t)
 	}
+	fc.reqEnd = len(fc.assertions)
 	entry = st.clone()
 	fc.entry = entry
 	nReq := len(fc.assertions)
